@@ -7,10 +7,12 @@
   * CSS Backgrounds 3 §5.1 border-radius: four values for top-left, top-right, bottom-right,
       bottom-left; bottom-left omitted = top-right; bottom-right omitted = top-left; top-right
       omitted = top-left; values after `/` are the vertical radii, the same rules; no `/`: vertical = horizontal.
-  * CSS Custom Properties 1 §3: `var(--x, fallback)` is replaced by the value of `--x`, or, when `--x`
-      is missing (or guaranteed-invalid), by the fallback = everything after the FIRST comma; without
-      fallback the declaration is invalid at computed-value time; custom properties on a dependency cycle
-      are guaranteed-invalid.
+  * property text C08 (read with CSS Custom Properties 1 §3): `var(--x, fallback)` is replaced by the
+      tokens of `--x`, or, when `--x` is undefined, by the fallback = everything after the FIRST comma;
+      a reference to a custom property on a dependency cycle makes the declaration invalid at
+      computed-value time (inherited / initial value), fallback or not.  The property text is silent on
+      an undefined reference WITHOUT fallback inside a longer value; there the specification below
+      follows the code (the reference is replaced by nothing; alone it leaves no value = invalid).
 -/
 import WR.C08.Model
 namespace WR.C08
@@ -45,7 +47,7 @@ def specCorners (vals : List Tok) : Option (List Tok) :=
   | [tl, tr, br, bl] => some [tl, tr, br, bl]
   | _ => none
 
-def isSlash (t : Tok) : Bool := t == .lit "/"
+def isSlash (t : Tok) : Bool := t.isSlash
 
 /-- `h-values [ / v-values ]`; the longhand `border-*-radius: h v` per corner -/
 def specBorderRadius (tokens : List Tok) : Option (List (List Tok)) :=
@@ -54,7 +56,7 @@ def specBorderRadius (tokens : List Tok) : Option (List (List Tok)) :=
   let v? : Option (List Tok) :=
     match after with
     | [] => some h                       -- no slash
-    | _ :: v => if v = [] ∨ v.any isSlash then none else some v
+    | _ :: v => if v.isEmpty || v.any isSlash then none else some v
   match v? with
   | none => none
   | some v =>
@@ -98,9 +100,6 @@ def reach (b : Bindings) : Nat → List String → List String
 /-- `v` lies on a dependency cycle -/
 def onCycle (b : Bindings) (v : String) : Bool := (reach b b.length [v]).contains v
 
-/-- the bindings with the guaranteed-invalid (cyclic) custom properties removed -/
-def acyclicPart (b : Bindings) : Bindings := b.filter fun p => !onCycle b p.1
-
 /-- outcome of the specified substitution -/
 inductive SpecRes where
   | outOfFuel
@@ -109,9 +108,9 @@ inductive SpecRes where
   deriving Repr, Inhabited, BEq
 
 /-- textual substitution of every `var()` in a token list.  One fuel for every recursive call:
-    the harness passes a fuel larger than any finite unfolding of its (acyclic after
-    `acyclicPart`) inputs; `outOfFuel` is reported as a harness error, never as a verdict. -/
-def specSubstList (b : Bindings) : Nat → List Tok → SpecRes
+    the harness passes a fuel larger than any finite unfolding (references to cyclic custom
+    properties are not unfolded); `outOfFuel` is reported as a harness error, never as a verdict. -/
+def specSubstList (b : Bindings) (cyc : String → Bool) : Nat → List Tok → SpecRes
   | 0, _ => .outOfFuel
   | _ + 1, [] => .toks []
   | n + 1, t :: rest =>
@@ -122,23 +121,26 @@ def specSubstList (b : Bindings) : Nat → List Tok → SpecRes
           match specVarName args with
           | none => .toks [t]                 -- not a custom-property reference: left alone
           | some v =>
-            if b.get v ≠ [] then specSubstList b n (b.get v)
+            if cyc v then .invalid            -- cyclic: invalid at computed-value time
+            else if b.get v ≠ [] then specSubstList b cyc n (b.get v)
             else match specFallback args with
-              | some fb => specSubstList b n fb
-              | none => .invalid
+              | some fb => specSubstList b cyc n fb
+              | none => .toks []              -- undefined, no fallback: nothing (see header)
         else
-          match specSubstList b n args with
+          match specSubstList b cyc n args with
           | .toks as => .toks [.fn name as]
           | r => r
       | _ => .toks [t]
-    match head, specSubstList b n rest with
+    match head, specSubstList b cyc n rest with
     | .toks hs, .toks rs => .toks (hs ++ rs)
     | .outOfFuel, _ => .outOfFuel
     | _, .outOfFuel => .outOfFuel
     | _, _ => .invalid
 
-/-- CSS Custom Properties: substitute in `tokens` under bindings `b` -/
+/-- substitute in `tokens` under bindings `b`; an empty result is "no value": invalid -/
 def specResolve (b : Bindings) (fuel : Nat) (tokens : List Tok) : SpecRes :=
-  specSubstList (acyclicPart b) fuel tokens
+  match specSubstList b (onCycle b) fuel tokens with
+  | .toks [] => .invalid
+  | r => r
 
 end WR.C08
